@@ -265,4 +265,8 @@ class If(raw_types.Operation):
         if subop_qasm is None:
             return None
         condition_qasm = " && ".join(protocols.qasm(c, args=args) for c in self._conditions)
-        return f'if ({condition_qasm}) {subop_qasm}'
+        # An OpenQASM `if` governs a single statement: repeat it for every statement of the sub-operation.
+        return ''.join(
+            f'{line}\n' if not line.strip() or line.lstrip().startswith('//') else f'if ({condition_qasm}) {line}\n'
+            for line in subop_qasm.splitlines()
+        )
